@@ -1194,6 +1194,17 @@ func main() {
 	}
 	n := r.Pick(3300, 132000)
 	vrun.Parallel(n, 0, func(i int) { runCase(r, genCase(r, i), scratch) })
+	// every entry point meets an invalid pattern set on both backends whatever the seed draws above
+	var forced []caseSpec
+	for bi, backend := range []string{"os", "mem"} {
+		for ei, ep := range entryPoints {
+			c := genCase(r, n+bi*len(entryPoints)+ei)
+			c.Backend, c.EP = backend, ep
+			c.Patterns = []string{invalidPatterns[(ei+bi)%len(invalidPatterns)]}
+			forced = append(forced, c)
+		}
+	}
+	vrun.Parallel(len(forced), 0, func(i int) { runCase(r, forced[i], scratch) })
 	os.RemoveAll(scratch)
 	q := int64(1)
 	if !r.Quick() {
